@@ -179,6 +179,8 @@ class kLeastAbsErrors(pathmodel.AbstractPathModelDAG):
 
         self.G = stdag.stDAG(self.G_internal, additional_starts=additional_starts_internal, additional_ends=additional_ends_internal)
         self.subpath_constraints = subpath_constraints_internal
+        if self.subpath_constraints is not None:
+            self._check_valid_subpath_constraints()
         self.edges_to_ignore = self.G.source_sink_edges.union(edges_to_ignore_internal)
         self.trusted_edges_for_safety = trusted_edges_for_safety_internal
         self.edge_error_scaling = error_scaling_internal
